@@ -165,6 +165,34 @@ CLAIMED = {
              "format_files / pool); the unused-analyses are not modelled; oracles: preserved names still defined, CLI --preserve keeps clients working.",
         technique="Lean 4 proof (membership) + differential correspondence through the real format_files + client-execution oracle",
     ),
+    "C02": dict(
+        text="Machine-checked behaviour preservation for the rules whose decision cores are modelled (delete_unreachable_code, constant-condition folding of remove_dead_ifs, "
+             "the negation used by swap_if_else / early_return / early_continue, replace_negated_numeric_comparison, simplify_boolean_expressions' bound analysis, "
+             "simplify_constrained_range): 6 theorems, corollaries of the C15/C16/C17 developments. The other ~85 rules have NO Lean model: each is applied in isolation to the "
+             "fixed corpus by the rule sweep (support, reported separately; the evidence lists how often each rule fired).",
+        design="4/C01-C02",
+        note="Trusted: Lean kernel; models tied as in C15/C16/C17; for unmodelled rules the claim is NOT shown by proof - only the execution sweep looks at them; corpus inputs "
+             "on which the reference tree already fails are baseline-excluded (corpus/baseline_C02.json).",
+        technique="Lean 4 proof for the modelled rules + per-rule execution sweep over a fixed corpus for all rules",
+    ),
+    "C11": dict(
+        text="Machine-checked proof of the whitespace algebra: tab expansion and trailing-blank removal keep the sequence of non-whitespace characters, no tab is left after "
+             "expansion, any whitespace-for-whitespace replacement (blank-line regexes, diff minimisation) keeps it too; the statement that literal values are preserved is FALSE "
+             "of the text-level stages and carries a counterexample theorem (replayed, known findings). 5 theorems.",
+        design="4/C11",
+        note="Trusted: Lean kernel; Layout.lean tied by suite layout (str.expandtabs(4), rmspace.format_str byte for byte); that whitespace changes outside literals keep the AST "
+             "is Python's lexical grammar (AST oracle); black / compactify are external.",
+        technique="Lean 4 proof (list induction, decide) + differential correspondence + ast.dump oracle per layout stage and line width",
+    ),
+    "C18": dict(
+        text="Machine-checked proof on import lists: with pairwise distinct bound names every permutation (sorting, merging, moving) of the import statements gives the same "
+             "environment and every name resolves to its own statement's object; the side condition is necessary (alias-collision counterexample theorem). 3 theorems. The model's "
+             "environment equals what CPython binds for stdlib import blocks.",
+        design="4/C18",
+        note="Trusted: Lean kernel; Imports.lean tied by suite binding; importlib resolution, re-export tracing, __all__, star expansion are outside the model: execution oracle on a "
+             "generated package tree (fresh interpreter per client and rule) and a two-checkout history oracle.",
+        technique="Lean 4 proof (permutation invariance under a nodup side condition) + CPython binding correspondence + package-tree execution oracle",
+    ),
 }
 
 NOT_YET = {}
